@@ -664,7 +664,7 @@ def get_engine(nd: AstNode) -> sqa.Engine:
     if isinstance(nd, verbs.Verb):
         engine = get_engine(nd.child)
 
-        if isinstance(nd, verbs.Join):
+        if isinstance(nd, verbs.Join | verbs.Union):
             right_engine = get_engine(nd.right)
             if engine.url != right_engine.url:
                 raise NotImplementedError  # TODO: find some good error for this
